@@ -10,6 +10,7 @@ import (
 	"sync"
 	"testing"
 
+	"github.com/alibaba/RedisShake/pkg/redis"
 	conf "github.com/alibaba/RedisShake/redis-shake/configure"
 	"github.com/alibaba/RedisShake/verifrt/ev"
 )
@@ -71,6 +72,29 @@ type c13Case struct {
 	// Empty: 0 none; i+1: the i-th argument is the empty string (as a key it passes a blacklist
 	// and fails a whitelist)
 	Empty int `json:"empty_arg_plus1,omitempty"`
+	// Spell: 0: the name is handed to the filter as the table spells it; 1..3: the command goes
+	// through the real argument parser first, spelled UPPER / lOWER-first / aLtErNaTiNg (a master
+	// replicates the name as the client typed it)
+	Spell int `json:"spelling,omitempty"`
+}
+
+func c13Spell(name string, how int) string {
+	b := []byte(name)
+	for i := range b {
+		up := false
+		switch how {
+		case 1:
+			up = true
+		case 2:
+			up = i > 0
+		case 3:
+			up = i%2 == 1
+		}
+		if up && b[i] >= 'a' && b[i] <= 'z' {
+			b[i] -= 'a' - 'A'
+		}
+	}
+	return string(b)
 }
 
 func c13Run(c c13Case) string {
@@ -120,7 +144,21 @@ func c13Run(c c13Case) string {
 	}
 	in := make([][]byte, len(args))
 	copy(in, args)
-	got, filtered := HandleFilterKeyWithCommand(c.Cmd, in)
+	name := c.Cmd
+	if c.Spell != 0 {
+		// the way parseSourceCommand does it: RESP array -> ParseArgs -> filter
+		var ia []interface{}
+		for _, a := range in {
+			ia = append(ia, a)
+		}
+		scmd, pargs, err := redis.ParseArgs(redis.NewCommand(c13Spell(c.Cmd, c.Spell), ia...))
+		if err != nil {
+			ev.Violate("C13|cmd="+c.Cmd+"|parse-error", fmt.Sprintf("ParseArgs refuses %s: %v", c13Spell(c.Cmd, c.Spell), err), c)
+			return "parse-error"
+		}
+		name, in = scmd, pargs
+	}
+	got, filtered := HandleFilterKeyWithCommand(name, in)
 	show := func(a [][]byte) string {
 		s := make([]string, len(a))
 		for i := range a {
@@ -188,7 +226,18 @@ func TestVerif_C13(t *testing.T) {
 			for _, cfg := range []string{"none", "white", "black"} {
 				for mask := 0; mask < 1<<uint(nk); mask++ {
 					for empty := 0; empty <= len(shape); empty++ {
-						c := c13Case{name, shape, mask, cfg, empty}
+						if empty == 0 {
+							// every spelling of the command name, through the real argument parser
+							for spell := 1; spell <= 3; spell++ {
+								c := c13Case{name, shape, mask, cfg, 0, spell}
+								o := c13Run(c)
+								n++
+								ev.Outcome(o)
+								ev.Nontrivial(ev.HashS(fmt.Sprint(c)))
+								ev.State(ev.HashS(fmt.Sprint(c)))
+							}
+						}
+						c := c13Case{name, shape, mask, cfg, empty, 0}
 						o := c13Run(c)
 						n++
 						ev.Outcome(o)
@@ -213,7 +262,7 @@ func TestVerif_C13(t *testing.T) {
 		}
 		if filtered || len(got) != 2 || string(got[0]) != "f0" || string(got[1]) != "f1" {
 			ev.Violate("C13|not-key-addressed-changed", fmt.Sprintf("command %s (not key-addressed) was changed or dropped by the key filter", name),
-				c13Case{name, "vv", 0, "white", 0})
+				c13Case{name, "vv", 0, "white", 0, 0})
 		}
 	}
 	conf.Options.FilterKeyWhitelist = nil
